@@ -194,8 +194,10 @@ def make_distance_matrix_from_adjacency_matrix(AG):
         representation of G based on its shortest path lengths.
     """
     # Convert adjacency matrix to SciPy format if needed.
-    if not sps.issparse(AG) and not isinstance(AG, np.ndarray):
-        AG = np.asarray(AG)
+    if not sps.issparse(AG):
+        # csgraph's dense routines misread arrays that are not C-contiguous
+        # (e.g. a transposed or Fortran-ordered adjacency matrix).
+        AG = np.ascontiguousarray(AG)
     if sps.issparse(AG):
         # Accept every SciPy sparse format (csgraph itself only takes CSR, CSC and
         # LIL); work on a copy so that the caller's matrix is left alone.
